@@ -111,9 +111,16 @@ theorem appendLoop_both (F : File) (cfg : Cfg) (E : Nat)
   | succ fuel ih =>
     intro a r B Fl hst hB hF ha hle hfuel
     unfold appendLoop
+    by_cases hcan : cancelled cfg r.np = true
+    · simp only [hcan, ↓reduceIte]
+      refine ⟨fun hn => by simp at hn, fun e' _ => ⟨0, ?_⟩⟩
+      rw [hst]; simp
+    simp only [hcan, Bool.false_eq_true, ↓reduceIte]
+    have hst1 : ({ r with np := r.np + 1 } : Run).st = mk B Fl := hst
     by_cases h : a ≤ E
     · obtain ⟨hk1, hk2⟩ := batchLen_pos hbs h
-      rcases processBatch_both F cfg E a r B Fl hs hbs hE hN hst hB hF ha h with ⟨r', hp, hr'⟩ | ⟨e, r', hp, hr'⟩
+      rcases processBatch_both F cfg E a { r with np := r.np + 1 } B Fl hs hbs hE hN hst1 hB hF ha h with
+        ⟨r', hp, hr'⟩ | ⟨e, r', hp, hr'⟩
       · rw [hp]
         simp only
         have hlb := slice_length F.blocks (a := a) (k := batchLen E cfg.bs a) (by omega)
@@ -131,8 +138,10 @@ theorem appendLoop_both (F : File) (cfg : Cfg) (E : Nat)
       · rw [hp]
         simp only
         refine ⟨fun hn => by simp at hn, fun e' _ => ⟨0, ?_⟩⟩
-        rw [hr', hst]; simp
-    · rw [processBatch_both_eof F cfg E a r hbs (by omega)]
+        rw [hr']
+        show r.st = _
+        rw [hst]; simp
+    · rw [processBatch_both_eof F cfg E a _ hbs (by omega)]
       simp only
       refine ⟨fun _ => ?_, fun e he => by simp at he⟩
       rw [hst, List.drop_eq_nil_of_le (by omega), List.drop_eq_nil_of_le (by omega)]
@@ -176,9 +185,53 @@ theorem preChecks_none (F : File) (h : preChecks F = none) :
   refine ⟨?_, c1.1.2⟩
   rw [← c3.2]; exact c3.1.symm ▸ rfl
 
-/-- a successful import passed every check -/
+/-! ### cancellation -/
+
+theorem validatedBody_full (F : File) (cfg : Cfg) (h : cancelled cfg (2 * valBatches F cfg) = false) :
+    validatedBody F cfg = F.blocks := by
+  unfold validatedBody
+  unfold cancelled at h
+  cases hc : cfg.cancelAt with
+  | none => rfl
+  | some c =>
+    rw [hc] at h
+    simp only [decide_eq_false_iff_not] at h
+    have : ¬ c < valBatches F cfg := by omega
+    simp only [this, ↓reduceIte]
+
+theorem validatedBody_none (F : File) (cfg : Cfg) (h : cfg.cancelAt = none) : validatedBody F cfg = F.blocks := by
+  unfold validatedBody; rw [h]
+
+/-- a cancelled context stops the write loop before its next batch -/
+theorem appendNew_cancelled (F : File) (cfg : Cfg) (a e : Nat) (m : Mode) (r : Run) (h : cancelled cfg r.np = true) :
+    appendNew F cfg a e m r = (some .cancel, r) := by
+  unfold appendNew appendLoop
+  simp only [h, ↓reduceIte]
+
+/-- ... so if the cancellation is noticed before the first write batch, nothing is written at all -/
+theorem processRegions_cancelled (F : File) (cfg : Cfg) (b f : Nat) (r : Run) (h : cancelled cfg r.np = true) :
+    (processRegions F cfg b f r).2.st = r.st := by
+  unfold processRegions
+  simp only [appendNew_cancelled F cfg _ _ _ r h]
+  cases (regions F b f).1.exists <;> cases (regions F b f).2.exists <;>
+    cases (!verifyAt F r.st (regions F b f).1.verify (regions F b f).1.stop) <;>
+    simp [appendNew_cancelled F cfg _ _ _ r h]
+
+/-- ... and if a region exists, the import reports the failure -/
+theorem processRegions_cancelled_err (F : File) (cfg : Cfg) (b f : Nat) (r : Run) (h : cancelled cfg r.np = true)
+    (hex : (regions F b f).1.exists = true ∨ (regions F b f).2.exists = true) :
+    (processRegions F cfg b f r).1 ≠ none := by
+  unfold processRegions
+  simp only [appendNew_cancelled F cfg _ _ _ r h]
+  rcases hex with hex | hex
+  · simp only [hex, ↓reduceIte]
+    cases (!verifyAt F r.st (regions F b f).1.verify (regions F b f).1.stop) <;> simp
+  · cases (regions F b f).1.exists <;>
+      cases (!verifyAt F r.st (regions F b f).1.verify (regions F b f).1.stop) <;>
+      simp [hex, appendNew_cancelled F cfg _ _ _ r h]
+
 theorem importRun_ok_facts (F : File) (cfg : Cfg) (st : Stores) (h : (importRun F cfg st).1 = none) :
-    preChecks F = none ∧ continuity F st = none ∧ validateBlocks F.blocks cfg.bs = true := by
+    preChecks F = none ∧ continuity F st = none ∧ validateBlocks (validatedBody F cfg) cfg.bs = true := by
   unfold importRun at h
   simp only at h
   split at h
@@ -195,7 +248,7 @@ theorem importRun_ok_facts (F : File) (cfg : Cfg) (st : Stores) (h : (importRun 
 
 /-- an import stopped by a check before the regions are processed changes nothing -/
 theorem importRun_early (F : File) (cfg : Cfg) (st : Stores)
-    (h : preChecks F ≠ none ∨ continuity F st ≠ none ∨ validateBlocks F.blocks cfg.bs = false) :
+    (h : preChecks F ≠ none ∨ continuity F st ≠ none ∨ validateBlocks (validatedBody F cfg) cfg.bs = false) :
     (importRun F cfg st).2.st = st ∧ (importRun F cfg st).1 ≠ none := by
   unfold importRun
   simp only
@@ -215,11 +268,39 @@ theorem importRun_early (F : File) (cfg : Cfg) (st : Stores)
   · rw [hv] at h; simp at h
 
 theorem importRun_eq_regions (F : File) (cfg : Cfg) (st : Stores) (b f : Nat)
-    (hp : preChecks F = none) (hc : continuity F st = none) (hv : validateBlocks F.blocks cfg.bs = true)
+    (hp : preChecks F = none) (hc : continuity F st = none) (hv : validateBlocks (validatedBody F cfg) cfg.bs = true)
     (hb : bChainTip st = some b) (hf : fChainTip st = some f) :
-    importRun F cfg st = processRegions F cfg b f { st := st } := by
+    importRun F cfg st = processRegions F cfg b f { st := st, np := 2 * valBatches F cfg } := by
   unfold importRun
   simp only [hp, hc, hv, hb, hf, Bool.not_true, Bool.false_eq_true, ↓reduceIte]
+
+/-- **anything written ⇒ everything validated**: if `Import` changed the stores at
+all, every check had passed on the WHOLE file and the context had not been
+cancelled when the write loop began (a validator that sees a cancelled context
+returns early, but then the write loop's first look at the context stops it) -/
+theorem importRun_written_validated (F : File) (cfg : Cfg) (st : Stores) (h : (importRun F cfg st).2.st ≠ st) :
+    preChecks F = none ∧ continuity F st = none ∧ validateBlocks F.blocks cfg.bs = true ∧
+    cancelled cfg (2 * valBatches F cfg) = false := by
+  unfold importRun at h
+  simp only at h
+  split at h
+  · exact absurd rfl h
+  rename_i hp
+  split at h
+  · exact absurd rfl h
+  rename_i hc
+  split at h
+  · exact absurd rfl h
+  rename_i hv
+  simp only [Bool.not_eq_true', Bool.not_eq_false] at hv
+  split at h
+  · cases hcan : cancelled cfg (2 * valBatches F cfg) with
+    | true =>
+      exact absurd (processRegions_cancelled F cfg _ _ { st := st, np := 2 * valBatches F cfg } hcan) h
+    | false =>
+      rw [validatedBody_full F cfg hcan] at hv
+      exact ⟨hp, hc, hv, rfl⟩
+  · exact absurd rfl h
 
 /-- the file ends at or below both store tips: no region exists -/
 theorem processRegions_none (F : File) (cfg : Cfg) (b f : Nat) (r : Run) (he : endHeight F ≤ min b f) :
@@ -242,8 +323,8 @@ theorem post_early (F : File) (B : List BHdr) (Fl : List Nat) (a : Nat) (e : Err
 /-- the regions of a file starting at height 0 over level stores: one new-headers region -/
 theorem processRegions_level (F : File) (cfg : Cfg) (B : List BHdr) (Fl : List Nat) (a : Nat)
     (hs : F.bstart = 0) (hbs : cfg.bs ≥ 1) (hB : B.length = a) (hF : Fl.length = a) (ha : a ≥ 1)
-    (hp : preChecks F = none) :
-    Post F B Fl a (processRegions F cfg (a - 1) (a - 1) { st := mk B Fl }) := by
+    (hp : preChecks F = none) (r : Run) (hr : r.st = mk B Fl) :
+    Post F B Fl a (processRegions F cfg (a - 1) (a - 1) r) := by
   obtain ⟨hmeta, hne, hN, _⟩ := preChecks_none F hp
   have hlen : F.blocks.length ≥ 1 := by
     cases hb : F.blocks with
@@ -259,28 +340,28 @@ theorem processRegions_level (F : File) (cfg : Cfg) (B : List BHdr) (Fl : List N
     rw [hs, Nat.sub_zero]
     have ha1 : a - 1 + 1 = a := by omega
     rw [ha1]
-    have := appendLoop_both F cfg (endHeight F) hs hbs hE hN (endHeight F + 2) a { st := mk B Fl } B Fl rfl hB hF ha
+    have := appendLoop_both F cfg (endHeight F) hs hbs hE hN (endHeight F + 2) a r B Fl hr hB hF ha
       (by omega) (by omega)
     exact ⟨fun h => ⟨hmeta, this.1 h⟩, fun e he => let ⟨j, hj⟩ := this.2 e he; ⟨j, Or.inr hmeta, hj⟩⟩
   · simp only [hn, decide_false, Bool.false_eq_true, ↓reduceIte]
     refine ⟨fun _ => ⟨hmeta, ?_⟩, fun e he => by simp at he⟩
-    rw [List.drop_eq_nil_of_le (by omega), List.drop_eq_nil_of_le (by omega)]
+    rw [List.drop_eq_nil_of_le (by omega), List.drop_eq_nil_of_le (by omega), hr]
     simp
 
 /-- `Import` of a file that starts at height 0 into healthy stores of equal height. -/
 theorem importRun_zero (F : File) (cfg : Cfg) (B : List BHdr) (Fl : List Nat) (a : Nat)
     (hs : F.bstart = 0) (hbs : cfg.bs ≥ 1) (hB : B.length = a) (hF : Fl.length = a) (ha : a ≥ 1) :
     Post F B Fl a (importRun F cfg (mk B Fl)) := by
-  by_cases h : preChecks F = none ∧ continuity F (mk B Fl) = none ∧ validateBlocks F.blocks cfg.bs = true
+  by_cases h : preChecks F = none ∧ continuity F (mk B Fl) = none ∧ validateBlocks (validatedBody F cfg) cfg.bs = true
   · obtain ⟨hp, hc, hv⟩ := h
     rw [importRun_eq_regions F cfg (mk B Fl) (a - 1) (a - 1) hp hc hv
       (by rw [bChainTip_mk B Fl (by omega), hB]) (by rw [fChainTip_mk B Fl (by omega), hF])]
-    exact processRegions_level F cfg B Fl a hs hbs hB hF ha hp
-  · have h' : preChecks F ≠ none ∨ continuity F (mk B Fl) ≠ none ∨ validateBlocks F.blocks cfg.bs = false := by
+    exact processRegions_level F cfg B Fl a hs hbs hB hF ha hp _ rfl
+  · have h' : preChecks F ≠ none ∨ continuity F (mk B Fl) ≠ none ∨ validateBlocks (validatedBody F cfg) cfg.bs = false := by
       by_cases h1 : preChecks F = none
       · by_cases h2 : continuity F (mk B Fl) = none
         · right; right
-          cases hv : validateBlocks F.blocks cfg.bs with
+          cases hv : validateBlocks (validatedBody F cfg) cfg.bs with
           | false => rfl
           | true => exact absurd ⟨h1, h2, hv⟩ h
         · exact Or.inr (Or.inl h2)
@@ -322,18 +403,18 @@ theorem importRun_covered_gen (F : File) (cfg : Cfg) (B : List BHdr) (Fl : List 
     (hB : B.length ≥ 1) (hF : Fl.length ≥ 1) (he : endHeight F ≤ min (B.length - 1) (Fl.length - 1)) :
     (importRun F cfg (mk B Fl)).2.st = mk B Fl ∧
     ((importRun F cfg (mk B Fl)).1 = none ↔
-      (preChecks F = none ∧ continuity F (mk B Fl) = none ∧ validateBlocks F.blocks cfg.bs = true)) := by
-  by_cases h : preChecks F = none ∧ continuity F (mk B Fl) = none ∧ validateBlocks F.blocks cfg.bs = true
+      (preChecks F = none ∧ continuity F (mk B Fl) = none ∧ validateBlocks (validatedBody F cfg) cfg.bs = true)) := by
+  by_cases h : preChecks F = none ∧ continuity F (mk B Fl) = none ∧ validateBlocks (validatedBody F cfg) cfg.bs = true
   · obtain ⟨hp, hc, hv⟩ := h
     rw [importRun_eq_regions F cfg (mk B Fl) _ _ hp hc hv (bChainTip_mk B Fl hB) (fChainTip_mk B Fl hF),
       processRegions_none F cfg _ _ _ he]
     exact ⟨rfl, fun _ => ⟨hp, hc, hv⟩, fun _ => rfl⟩
   · refine ⟨?_, fun hn => absurd (importRun_ok_facts F cfg _ hn) h, fun hh => absurd hh h⟩
-    have h' : preChecks F ≠ none ∨ continuity F (mk B Fl) ≠ none ∨ validateBlocks F.blocks cfg.bs = false := by
+    have h' : preChecks F ≠ none ∨ continuity F (mk B Fl) ≠ none ∨ validateBlocks (validatedBody F cfg) cfg.bs = false := by
       by_cases h1 : preChecks F = none
       · by_cases h2 : continuity F (mk B Fl) = none
         · right; right
-          cases hv : validateBlocks F.blocks cfg.bs with
+          cases hv : validateBlocks (validatedBody F cfg) cfg.bs with
           | false => rfl
           | true => exact absurd ⟨h1, h2, hv⟩ h
         · exact Or.inr (Or.inl h2)
